@@ -15,6 +15,7 @@
 package fakelfs
 
 import (
+	"bytes"
 	"crypto/sha256"
 	"encoding/hex"
 	"encoding/json"
@@ -63,22 +64,24 @@ type Offer struct {
 
 // Fault lets a driver override the answer to one request.
 type Fault struct {
-	Status     int               // if non-zero, answer with this status and Body
-	Body       []byte            // body for Status, or replacement body for storage GET
-	Header     map[string]string // extra headers
-	Reset      bool              // hijack and close the connection
-	CloseAfter int               // storage GET: send this many body bytes (with the full Content-Length), then cut the connection
-	ReplaceBody bool             // storage GET: send Body instead of the object (status 200/206 logic unchanged unless Status set)
-	OmitObjects map[string]bool  // batch: leave these oids out of the answer
-	ObjErrors   map[string]int   // batch: answer these oids with an object error of the given code
-	NoAction    map[string]bool  // batch: answer these oids without actions
-	ExpiredAct  map[string]bool  // batch: actions for these oids are already expired
-	HashAlgo    string           // batch: hash_algo value
-	Transfer    string           // batch: transfer adapter name to announce
-	IgnoreRange bool             // storage GET: ignore Range, answer 200 with everything
-	WrongRangeStart int64        // storage GET: answer 206 but with a Content-Range starting here (body from there)
-	NoContentRange bool          // storage GET: 206 without Content-Range
-	DropPut     bool             // storage PUT: answer 200 but do not store
+	Status          int               // if non-zero, answer with this status and Body
+	Body            []byte            // body for Status, or replacement body for storage GET
+	Header          map[string]string // extra headers
+	Reset           bool              // hijack and close the connection
+	CloseAfter      int               // storage GET: send this many body bytes (with the full Content-Length), then cut the connection
+	ReplaceBody     bool              // storage GET: send Body instead of the object (status 200/206 logic unchanged unless Status set)
+	OmitObjects     map[string]bool   // batch: leave these oids out of the answer
+	ObjErrors       map[string]int    // batch: answer these oids with an object error of the given code
+	NoAction        map[string]bool   // batch: answer these oids without actions
+	ExpiredAct      map[string]bool   // batch: actions for these oids are already expired
+	HashAlgo        string            // batch: hash_algo value
+	Transfer        string            // batch: transfer adapter name to announce
+	IgnoreRange     bool              // storage GET: ignore Range, answer 200 with everything
+	WrongRangeStart int64             // storage GET: answer 206 but with a Content-Range starting here (body from there)
+	NoContentRange  bool              // storage GET: 206 without Content-Range
+	DropPut         bool              // storage PUT: answer 200 but do not store
+	ContentRange    string            // storage GET: literal Content-Range header value to send with a 206
+	ExtraBytes      int               // storage GET: append this many junk bytes after the (ranged) body
 }
 
 type Lock struct {
@@ -90,17 +93,17 @@ type Lock struct {
 }
 
 type Server struct {
-	URL  string
-	srv  *httptest.Server
-	mu   sync.Mutex
-	t0   time.Time
-	seq  int
-	log  []*Request
-	objs map[string]map[string][]byte // repo -> oid -> content
-	locks map[string][]*Lock          // repo -> locks
-	lockSeq int
+	URL      string
+	srv      *httptest.Server
+	mu       sync.Mutex
+	t0       time.Time
+	seq      int
+	log      []*Request
+	objs     map[string]map[string][]byte // repo -> oid -> content
+	locks    map[string][]*Lock           // repo -> locks
+	lockSeq  int
 	batchSeq int
-	offers map[string]*Offer
+	offers   map[string]*Offer
 	// Hook is consulted for every request after it has been logged (may be nil).
 	Hook func(r *Request) *Fault
 	// WithVerify: upload actions come with a verify action.
@@ -134,6 +137,13 @@ func NewOn(addr string) (*Server, error) {
 	s.srv.Start()
 	s.URL = s.srv.URL
 	return s, nil
+}
+
+// SetHook installs the fault hook (safe while requests are being served).
+func (s *Server) SetHook(h func(r *Request) *Fault) {
+	s.mu.Lock()
+	s.Hook = h
+	s.mu.Unlock()
 }
 
 func (s *Server) Close() { s.srv.CloseClientConnections(); s.srv.Close() }
@@ -485,12 +495,17 @@ func (s *Server) storageGet(w http.ResponseWriter, r *http.Request, req *Request
 		if start > to {
 			body = nil
 		}
-		if !f.NoContentRange {
+		if f.ContentRange != "" {
+			w.Header().Set("Content-Range", f.ContentRange)
+		} else if !f.NoContentRange {
 			w.Header().Set("Content-Range", fmt.Sprintf("bytes %d-%d/%d", start, to, total))
 		}
 	}
 	if f.Status == 200 || f.Status == 206 {
 		status = f.Status
+	}
+	if f.ExtraBytes > 0 {
+		body = append(append([]byte{}, body...), bytes.Repeat([]byte{0x5a}, f.ExtraBytes)...)
 	}
 	req.Answer, req.Status = s.now(), status
 	w.Header().Set("Content-Type", "application/octet-stream")
